@@ -64,6 +64,9 @@ func c20Lookup(c *vk.Ctx) {
 			ip := make(net.IP, 16)
 			r.Read(ip)
 			ip[0], ip[1] = 0xfe, 0x80
+			if r.Intn(3) == 0 {
+				ip[0], ip[1] = 0x20, 0x01 // a zone on a global address: still not an address the parser accepts
+			}
 			var addr net.Addr = &net.TCPAddr{IP: ip, Port: 443, Zone: zone}
 			if r.Intn(2) == 0 {
 				addr = &net.UDPAddr{IP: ip, Port: 443, Zone: zone}
